@@ -27,6 +27,8 @@ def gen_cases(tier, seed):
         out.append({"seed": s, "n": r.randint(2, 20 if tier == "quick" else 50), "steps": r.randint(0, 8)})
     for i in range(n // 7):
         out.append({"seed": env.seed_for(seed, ID, tier, "file", i), "mode": "file"})
+    for i in range(max(20, n // 50)):
+        out.append({"seed": env.seed_for(seed, ID, tier, "literal_dry", i), "mode": "literal_dry"})
     return out
 
 
@@ -154,11 +156,87 @@ def run_file(desc):
         shutil.rmtree(d, ignore_errors=True)
 
 
+def run_literal_dry(desc):
+    """A dry run executes NO call - not the library's own structural calls either (gather, unpack, item access): literals that are user objects
+    with observable iteration / indexing / hashing, and a one-shot iterable, are untouched by the dry run; the real run afterwards works."""
+    import operator
+
+    import uberjob
+
+    rng = random.Random(desc["seed"])
+    log = []
+
+    class Seq:
+        def __init__(self, items):
+            self.items = items
+
+        def __iter__(self):
+            log.append("iter")
+            return iter(self.items)
+
+        def __getitem__(self, i):
+            log.append(("getitem", i))
+            return self.items[i]
+
+        def __len__(self):
+            log.append("len")
+            return len(self.items)
+
+    class Key:
+        def __init__(self, k):
+            self.k = k
+
+        def __hash__(self):
+            log.append("hash")
+            return hash(self.k)
+
+        def __eq__(self, o):
+            return isinstance(o, Key) and o.k == self.k
+
+    def one_shot():
+        log.append("generator started")
+        yield 1
+        yield 2
+
+    plan = uberjob.Plan()
+    registry = uberjob.Registry() if rng.random() < 0.5 else None
+    seq = plan.lit(Seq([10, 20, 30]))
+    a, b, c = plan.unpack(seq, 3)
+    item = plan.call(operator.getitem, plan.lit(Seq([5, 6])), 1)
+    keyed = plan.gather({plan.lit(Key("k")): 1, "plain": [plan.lit(Key("m"))]}) if rng.random() < 0.7 else plan.lit(0)
+    gen = plan.lit(one_shot())
+    g1, g2 = plan.unpack(gen, 2)
+    total = plan.call(lambda *xs: sum(xs), a, b, c, item, g1, g2)
+    output = rng.choice([total, [total, keyed], {"t": total, "k": keyed}])
+    kw = dict(output=output, registry=registry, progress=None, max_workers=rng.choice([1, 2]))
+    bad = None
+    try:
+        uberjob.run(plan, dry_run=True, **kw)
+    except BaseException as e:
+        bad = f"dry run raised {e!r}"
+    if bad is None and log:
+        bad = f"the dry run iterated / indexed / hashed the caller's literal objects: {log[:6]} (it executes no call, not the library's structural ones either)"
+    if bad is None:
+        try:
+            got = uberjob.run(plan, **kw)
+            t_ = got if not isinstance(got, (list, dict)) else (got[0] if isinstance(got, list) else got["t"])
+            if t_ != 10 + 20 + 30 + 6 + 1 + 2:
+                bad = f"the real run after the dry run returned {t_!r} (expected 69)"
+        except BaseException as e:
+            bad = f"the real run after the dry run raised {e!r} (cause {e.__cause__!r}) - the dry run used up something"
+    r_ = {"status": "ok", "counters": {"dry_runs": 1, "literal_object_dry_runs": 1}, "nontrivial": True, "sig": f"litdry|{desc['seed'] % 100000}"}
+    if bad:
+        r_.update(status="violation", mechanism="dry-run", detail=f"[literals that are user objects, registry={'yes' if registry is not None else 'no'}] {bad}")
+    return r_
+
+
 def run_case(desc):
     import uberjob
 
     if desc.get("mode") == "file":
         return run_file(desc)
+    if desc.get("mode") == "literal_dry":
+        return run_literal_dry(desc)
     problems, stats, S, log = history.run_history(desc, props=())
     if problems:
         return {"status": "ok", "counters": {"prefix_histories_cut_short": 1}, "nontrivial": False}
